@@ -153,6 +153,51 @@ def c02_3(ck, prog):
     append_check_tests_locked(prog, r)
 
 
+BYTE_ORDER_ARG = {
+    # callee: (index of the string argument, index of the byte-order argument)
+    '_dbus_marshal_set_uint32': (0, 3), '_dbus_marshal_read_uint32': (0, 2), '_dbus_marshal_read_basic': (0, 4),
+    '_dbus_marshal_set_basic': (0, 5), '_dbus_type_writer_init_values_only': (4, 1), '_dbus_type_reader_init': (4, 1),
+    '_dbus_type_writer_init': (4, 1), '_dbus_marshal_byteswap': (5, 3),
+}
+
+
+def c02_5(ck, prog):
+    r = ck.rule('C02.5', 'every marshalling call on a message\'s header or body is given that message\'s own byte '
+                'order; failed header edits give back the reserved padding (shared with C12.1)', 'TAB',
+                breaks='a message parsed in the other byte order is re-serialised with length words in host order; '
+                       'a message marshals differently after a failed edit', floor=12)
+    n = 0
+    for fn in lib.prod_funcs(prog, {'dbus/dbus-marshal-header.c', MSG}):
+        for b, i, c in fn.calls():
+            spec = BYTE_ORDER_ARG.get(c.get('callee'))
+            if spec is None or len(c['args']) <= max(spec):
+                continue
+            sarg = strip_addr(c['args'][spec[0]]) or c['args'][spec[0]]
+            if not (is_member(sarg, 'data', 'DBusHeader') or is_member(sarg, 'body', 'DBusMessage')):
+                continue
+            bo = c['args'][spec[1]]
+            n += 1
+            key = '%s:%s@%d' % (fn.name, c['callee'], n)
+            ok = is_call(bo, '_dbus_header_get_byte_order') or (is_ref(bo) and bo['name'] in ('byte_order', 'old_byte_order', 'new_byte_order'))
+            if c['callee'] == '_dbus_marshal_byteswap':
+                ok = True
+            if ok:
+                r.ok('%s:%s' % (fn.name, c['callee']), {'byte_order': estr(bo)})
+            else:
+                r.violation('%s:%s' % (fn.name, c['callee']), fn.name, fn.file, c['line'],
+                            '%s on the message\'s own bytes is given byte order %s instead of the header\'s byte '
+                            'order' % (c['callee'], estr(bo)))
+    if n < 10:
+        raise AnalysisBroken('only %d marshalling calls on header/body found' % n)
+    from rules.C12 import c12_1
+    save = ck.rule
+    ck.rule = lambda *a, **k: r
+    try:
+        c12_1(ck, prog)
+    finally:
+        ck.rule = save
+
+
 def run(ck):
     ck.explanation = (
         'Static rules over dbus-marshal-basic.c, dbus-marshal-byteswap.c, dbus-marshal-validate.c, '
@@ -167,5 +212,6 @@ def run(ck):
         c02_1(ck, prog)
         c02_2(ck, prog)
         c02_3(ck, prog)
+        c02_5(ck, prog)
         from rules.C14 import signature_pairing
         signature_pairing(ck, prog, rid='C02.4')
